@@ -119,7 +119,24 @@ def prove(module, theorems):
     if rc != 0:
         errs = [l for l in out.splitlines() if "error" in l]
         # name the theorem(s) whose proof broke, when lean tells us the position
-        raise Broken(f"proof:{module}", "\n".join(errs[:20]) or out[-2000:])
+        named = []
+        for l in errs:
+            m = re.search(r"(\S+\.lean):(\d+):\d+", l)
+            if not m:
+                continue
+            fp = m.group(1) if os.path.isabs(m.group(1)) else os.path.join(LEAN, m.group(1))
+            try:
+                src = open(fp).read().splitlines()[:int(m.group(2))]
+            except OSError:
+                continue
+            for ln in reversed(src):
+                t = re.match(r"^(?:private |protected )?(?:theorem|lemma|def|example)\s+(\S+)", ln)
+                if t:
+                    if t.group(1) not in named:
+                        named.append(t.group(1))
+                    break
+        head = ("no longer checks: " + ", ".join(named) + "\n") if named else ""
+        raise Broken(f"proof:{module}", head + ("\n".join(errs[:20]) or out[-2000:]))
     path = os.path.join(LEAN, module.replace(".", "/") + ".lean")
     bad = []
     files = [path]
